@@ -673,6 +673,30 @@ theorem step_onSigchld (fuel : Nat) : ∀ (st : St) (this : Option Nat), SigStep
         · exact (g2_fail _ _).step
         · exact (step_procStep _ _).trans (ih _ _)
 
+theorem step_procSnapLoop (l : List Nat) : ∀ st : St, SigStep st (procSnapLoop st l) := by
+  induction l with
+  | nil => intro st; exact SigStep.refl st
+  | cons a rest ih =>
+    intro st
+    unfold procSnapLoop
+    split
+    · exact SigStep.refl _
+    · split
+      · exact (g2_fail _ _).step
+      · split
+        · exact ih _
+        · split
+          · exact (g2_fail _ _).step
+          · exact (step_procStep _ _).trans (ih _)
+
+theorem step_onSigchldAny (fuel : Nat) (st : St) : SigStep st (onSigchldAny fuel st) := by
+  unfold onSigchldAny
+  split
+  · split
+    · exact (g2_fail _ _).step
+    · exact step_procSnapLoop _ _
+  · exact step_onSigchld _ _ _
+
 /-- The callback of a signal watch (the harness's, `on_sigchld`, or `on_sigwinch`). -/
 theorem step_sigCb (fuel : Nat) (st : St) (a : Nat) (s : Int) : SigStep st (sigCb fuel st a s) := by
   unfold sigCb
@@ -680,7 +704,7 @@ theorem step_sigCb (fuel : Nat) (st : St) (a : Nat) (s : Int) : SigStep st (sigC
   · split
     · exact step_fireUser _ _ _ _
     · split
-      · exact step_onSigchld _ _ _
+      · exact step_onSigchldAny _ _
       · split
         · exact (g2_with_stillRunning _ _).step
         · exact SigStep.refl _
@@ -804,6 +828,30 @@ theorem step_invokeTimers (fuel : Nat) (st : St) : SigStep st (invokeTimers fuel
   · exact SigStep.refl _
   · exact ((g2_with_laters st []).step.trans (step_timerPhase _ _)).trans (step_laterLoop _ _)
 
+theorem step_sigSnapLoopT (fuel : Nat) (s : Int) (l : List Nat) : ∀ st : St, SigStep st (sigSnapLoopT fuel st s l).1 := by
+  induction l with
+  | nil => intro st; exact SigStep.refl st
+  | cons a rest ih =>
+    intro st
+    unfold sigSnapLoopT
+    split
+    · exact SigStep.refl _
+    · split
+      · exact (g2_fail _ _).step
+      · split
+        · exact ih _
+        · split
+          · exact (g2_fail _ _).step
+          · exact (step_sigCb _ _ _ _).trans (ih _)
+
+theorem step_sigDispatch (fuel : Nat) (st : St) (s : Int) : SigStep st (sigDispatch fuel st s) := by
+  unfold sigDispatch
+  split
+  · split
+    · exact (g2_fail _ _).step
+    · exact step_sigSnapLoopT _ _ _ _
+  · exact step_sigwatchLoopT _ _ _ _
+
 theorem step_dispatchLoop (fuel : Nat) (pending : List Int) (l : List Int) : ∀ st : St, SigStep st (dispatchLoop fuel st pending l) := by
   induction l with
   | nil => intro st; exact SigStep.refl st
@@ -812,7 +860,7 @@ theorem step_dispatchLoop (fuel : Nat) (pending : List Int) (l : List Int) : ∀
     unfold dispatchLoop
     refine SigStep.trans ?_ (ih _)
     split
-    · exact step_sigwatchLoopT _ _ _ _
+    · exact step_sigDispatch _ _ _
     · exact SigStep.refl _
 
 theorem g2_with_pendingSig (st : St) (l : List Int) : G2 st { st with pendingSig := l } := G2.of_eq rfl rfl
@@ -1108,6 +1156,66 @@ theorem sigwalk_complete (fuel : Nat) : ∀ (st : St) (s : Int) (this : Option N
                     right
                     rw [aft_of_aft_cons a nx _ t i1.nodup hq]
                     exact h
+
+/-! ### the repaired walk (snapshot) -/
+
+/-- The repaired walk visits a sub-sequence of the snapshot, in snapshot order. -/
+theorem sigsnap_sublist (fuel : Nat) (s : Int) (l : List Nat) : ∀ st : St, (sigSnapLoopT fuel st s l).2.Sublist l := by
+  induction l with
+  | nil => intro st; simp [sigSnapLoopT]
+  | cons a rest ih =>
+    intro st
+    unfold sigSnapLoopT
+    split
+    · exact List.nil_sublist _
+    · split
+      · exact List.nil_sublist _
+      · split
+        · exact (ih _).trans (List.sublist_cons_self a rest)
+        · split
+          · exact List.nil_sublist _
+          · exact (ih _).cons₂ a
+
+/-- … and skips nobody: a watch of the snapshot that is still in the list when the walk returns normally
+    has been visited, whatever the callbacks registered or cancelled (their own watch included). -/
+theorem sigsnap_complete (fuel : Nat) (s : Int) (l : List Nat) : ∀ st : St, SInv st →
+    (sigSnapLoopT fuel st s l).1.status = .ok →
+    ∀ b ∈ l, b < st.heap.length → b ∈ (sigSnapLoopT fuel st s l).1.signals → b ∈ (sigSnapLoopT fuel st s l).2 := by
+  induction l with
+  | nil => intro st _ _ b hb; cases hb
+  | cons a rest ih =>
+    intro st i
+    have hstep := step_sigSnapLoopT fuel s (a :: rest) st i
+    unfold sigSnapLoopT at hstep ⊢
+    split
+    · rename_i h; intro hok; exact St.not_ok_absurd h hok
+    · split
+      · intro hok; exact absurd hok (St.status_fail_ne _ _)
+      · rename_i hnok hlive
+        split
+        · rename_i hnot
+          rw [if_neg hnok, if_neg hlive, if_pos hnot] at hstep
+          intro hok b hb hblt hbfin
+          simp only [List.mem_cons] at hb
+          cases hb with
+          | inl h =>
+            subst h
+            -- b is not in the list now, it is old, so it cannot be in the list at the end
+            exfalso
+            cases hstep.fresh b hbfin with
+            | inl h => simp at hnot; exact hnot h
+            | inr h => omega
+          | inr h => exact ih st i hok b h hblt hbfin
+        · split
+          · intro hok; exact absurd hok (St.status_fail_ne _ _)
+          · intro hok b hb hblt hbfin
+            simp only [List.mem_cons] at hb
+            cases hb with
+            | inl h => subst h; exact List.mem_cons_self
+            | inr h =>
+              apply List.mem_cons_of_mem
+              have f1 := step_sigCb fuel st a s i
+              exact ih _ f1.inv hok b h (Nat.lt_of_lt_of_le hblt f1.ext.len) hbfin
 
 /-! ### in list order -/
 
